@@ -105,7 +105,7 @@ func sliceStoreName(st *ssa.Store, recv ssa.Value) string {
 	if !ok || fa.X != recv {
 		return ""
 	}
-	return fieldOfAddr(fa).Name()
+	return fieldName(fieldOfAddr(fa))
 }
 
 func (x *rulePkg) encoderArm(code uint64) encArm {
